@@ -62,6 +62,17 @@ def cascadeSpec [DecidableEq α] (bank : List (List α × List α)) (w : α) : R
 def parallelSpec [DecidableEq α] (bank : List (List α × List α)) (w : α) : Resp α :=
   sumResp (bank.map fun f => respSpec f.1 f.2 w)
 
+mutual
+/-- nested banks: product over a cascade, sum over a parallel bank, transfer function at a leaf -/
+def Bank.spec [DecidableEq α] (w : α) : Bank α → Resp α
+  | .filt b a => respSpec b a w
+  | .cascade ms => prodResp (Bank.specList w ms)
+  | .parallel ms => sumResp (Bank.specList w ms)
+def Bank.specList [DecidableEq α] (w : α) : List (Bank α) → List (Resp α)
+  | [] => []
+  | m :: ms => Bank.spec w m :: Bank.specList w ms
+end
+
 /-- polynomial product of coefficient lists (the cascade's numerator / denominator) -/
 def scaleL (c : α) (q : List α) : List α := q.map (c * ·)
 
